@@ -1849,7 +1849,11 @@ class TestGraph(object):
             if i == 0:
                 graph.new_objects(stubs)
             else:
-                graph.new_objects([s for s in stubs if s.key == "nets"])
+                # reuse previous vm and image objects but don't lose the ones only this worker supports
+                known_ids = [o.id for o in graph.objects]
+                graph.new_objects(
+                    [s for s in stubs if s.key == "nets" or s.id not in known_ids]
+                )
             leaves = sorted(
                 leaves, key=lambda x: int(re.match(r"^(\d+)", x.prefix).group(1))
             )
